@@ -722,8 +722,9 @@ class _ActionSubCommands(_SubParsersAction):
                     f'explicit "{dest}" key. Subcommand "{subcommand}" will be used.'
                 )
 
-        # Remove extra subcommand settings
-        if subcommand and len(subcommand_keys) > 1:
+        # Remove extra subcommand settings, except when only a partial config is being
+        # loaded (ActionConfigFile.apply_config): a later argument may select another subcommand
+        if subcommand and len(subcommand_keys) > 1 and (fail_no_subcommand or require_single):
             for key in [k for k in subcommand_keys if k != subcommand]:
                 del cfg[prefix + key]
 
